@@ -11,10 +11,12 @@ package strutil
 //@   modifies nothing
 //@   ensures len(result) == len(s)
 
+// the text of a byte slice as a function of the slice (assumed: the bytes are not mutated while the string is in use)
+//@ uf bytesText([]byte) string
 //@ func UnsafeBytesToString
 //@   attr assumed unsafe
 //@   modifies nothing
-//@   ensures len(result) == len(b)
+//@   ensures len(result) == len(b) && result == bytesText(b)
 
 // ---- C16: POSIX shell reading of the escaped text (specification artefact, DESIGN C16) ----
 // Byte transducer of sh token recognition / quote removal (XCU 2.2, 2.3) restricted to what can follow an opening
